@@ -384,7 +384,11 @@ func NewTicker(loc string, d time.Duration) *time.Ticker {
 //go:norace
 func Yield(loc string) {
 	s := active.Load()
-	if s == nil || s.aborting {
+	if s == nil {
+		return
+	}
+	if s.aborting {
+		s.exitIfTask()
 		return
 	}
 	if me := s.self(); me != nil {
@@ -559,6 +563,17 @@ func (s *Sched) AdvanceBy(d time.Duration) {
 	s.Quiesce()
 }
 
+// exitIfTask terminates the calling goroutine if it is a task (used while a run is being torn
+// down: a goroutine that wakes up natively, e.g. from a ticker, must not keep running).
+//
+//go:norace
+func (s *Sched) exitIfTask() {
+	if me := s.self(); me != nil {
+		me.state = tsDone
+		runtime.Goexit()
+	}
+}
+
 // BeginAbort switches every primitive to pass-through mode (locks become no-ops) so that
 // cleanup code can run on the scheduler goroutine whatever the parked tasks hold.
 //
@@ -575,14 +590,24 @@ func (s *Sched) AbortAll() {
 	for round := 0; round < 50; round++ {
 		synctest.Wait()
 		n := 0
+		native := 0
 		for _, t := range s.Tasks() {
-			if t.state == tsParked {
+			switch {
+			case t.state == tsParked:
 				t.state = tsRunning
 				raceDisable()
 				t.wake <- wakeMsg{abort: true}
 				raceEnable()
 				n++
+			case t.state == tsRunning:
+				native++
 			}
+		}
+		if n == 0 && native > 0 && round < 40 {
+			// natively blocked goroutines (a heartbeat loop nobody can stop any more): let their
+			// tickers fire; on wake-up they reach a scheduling point and exit (exitIfTask)
+			time.Sleep(3 * time.Minute)
+			continue
 		}
 		if n == 0 {
 			break
